@@ -119,6 +119,32 @@ CHECKS = {
         technique="TLA+ spec (ExtractFS) exhaustively model-checked + real extractions of the same archive alphabets under an audit hook validated against the spec (TraceExtractFS)",
         design_ref="3.5, 4 C03",
     ),
+    "C13": dict(
+        level="model_checking",
+        text="Parallel.tla models Main / one Worker per folder / Reporter as interleaved actions for the sequential, thread and process "
+             "modes; TLC checks Deterministic and ErrorReachesCaller under every interleaving (and termination), with a process-mode child "
+             "whose exception queue does not reach the parent as negative control. Every order of the workers' output writes that TLC "
+             "enumerates (GenParallel; all for small shapes, sampled in quick) is forced on the real thread-parallel path by gates in the "
+             "WriterFactory products, with one folder damaged at each position, and for two independent SevenZipFile objects on one path; "
+             "the sequential path and the process-parallel option (OS scheduling, repeated) are run with damage at each position. "
+             "TraceParallel validates: outputs identical, nothing delivered with other bytes, error raised iff a folder is damaged.",
+        note="Trusted: TLC; process-mode children cannot be gated (exploration by repetition only); gating granularity is the first write "
+             "of each member's product; process mode is exercised with a directory sink (a WriterFactory cannot receive data from another process).",
+        technique="TLA+ spec (Parallel) model-checked + TLC-enumerated schedules forced on the real threads + trace validation (TraceParallel)",
+        design_ref="3.6, 4 C13",
+    ),
+    "C18": dict(
+        level="model_checking",
+        text="Parallel.tla with a callback: the Reporter takes events from the queue and runs an arbitrarily slow callback while workers and "
+             "close() proceed; TLC checks Ordered, Complete, NoneAfterClose and CloseNeverFails for every interleaving (negative control: "
+             "close() joining with a time limit). Real extractions (TLC schedules forced by write gates, sequential path, directory and "
+             "factory sinks, extract(T) with skipped folders/predecessors, two and three extractions in one session, instantaneous and "
+             "blocking callbacks) record every completed callback, the return of extract and of close(); TraceParallel checks the order, "
+             "pairing, sizes, byte accounting and that nothing is delivered after close() returned.",
+        note="Trusted: TLC; callbacks are recorded at completion inside the callback; 1.5 s grace after close() to observe late deliveries.",
+        technique="TLA+ spec (Parallel) model-checked + scheduled real extractions with recording callbacks + trace validation (TraceParallel)",
+        design_ref="3.6, 4 C18",
+    ),
 }
 
 NOT_YET = {}  # id -> reason; filled below for every property without a check
